@@ -2,6 +2,7 @@ package main
 
 import (
 	"fmt"
+	"github.com/gobuffalo/plush/v5"
 	"strings"
 )
 
@@ -256,6 +257,34 @@ func init() {
 			}
 			if !ok {
 				e.Violate("c12-bind", fmt.Sprintf("%s: the helpers must receive %v in this order; observed %s, log %v %s", t.tmpl, t.want, o.Class, got, o.Msg), map[string]interface{}{"case": c, "observed": o})
+			}
+		}
+		// the error a helper returns fails the call whatever error it is - also one that is, or wraps, an
+		// unknown-identifier error (a helper that renders a snippet naming a missing variable): the call
+		// was made with the arguments supplied, its failure is not an unknown identifier of THIS template
+		{
+			calls := 0
+			extra := map[string]interface{}{
+				"uerr": func() (string, error) { calls++; return "", &plush.ErrUnknownIdentifier{ID: "inner"} },
+				"uwrap": func() (string, error) {
+					calls++
+					return "", fmt.Errorf("snippet: %w", &plush.ErrUnknownIdentifier{ID: "inner"})
+				},
+				"urend": func(h plush.HelperContext) (string, error) { calls++; return h.Render("<%= missingInSnippet %>") },
+			}
+			for _, h := range []string{"uerr", "uwrap", "urend"} {
+				for _, form := range []string{"<%= X() %>", "<%= if (X()) { %>y<% } else { %>n<% } %>", "<%= if (false) { %>a<% } else if (X()) { %>b<% } else { %>c<% } %>", "<%= !X() %>", "<%= X() == nil %>",
+					"<%= X() || true %>", "<%= true && X() %>", "<% let q = X() %>ok"} {
+					tm := strings.Replace(form, "X", h, 1)
+					calls = 0
+					o := runRenderExtra(RCase{Tmpl: tm, Binds: binds}, extra)
+					e.rep.Evaluations++
+					e.Count("helper-error-kinds")
+					e.Distinct(tm)
+					if calls > 0 && o.Class != "ERR" {
+						e.Violate("c12-bind", fmt.Sprintf("%s: the helper was called and returned an error, Render gave %s %q", tm, o.Class, o.Out), map[string]interface{}{"tmpl": tm, "observed": o})
+					}
+				}
 			}
 		}
 		// an omitted trailing options map is a FRESH empty map for every call: a helper that writes
